@@ -46,7 +46,7 @@ type C04Case struct {
 
 func genC04(t *rapid.T) C04Case {
 	o := worldOpts()
-	w := gen.GenWorld(t, o)
+	w := gen.AnyWorld(t, o)
 	c := C04Case{World: w}
 	for range w.Tuples {
 		c.Split = append(c.Split, rapid.IntRange(0, 2).Draw(t, "ctx") == 0)
